@@ -40,8 +40,16 @@ func main() {
 		for _, id := range ids {
 			p := core.Registry[id]
 			fmt.Printf("%s: %s\n", id, p.Decided)
+			fmt.Printf("  NOT-COVERED %s\n", p.NotCovered)
 			for _, r := range p.Rules {
-				fmt.Printf("  %-8s min=%-3d %s\n", r.ID, r.Min, r.Title)
+				cfgs := strings.Join(r.Configs, ",")
+				if cfgs == "" {
+					cfgs = "default"
+				}
+				if len(r.Deep) > 0 {
+					cfgs += " (+" + strings.Join(r.Deep, ",") + " thorough)"
+				}
+				fmt.Printf("  %-8s min=%-3d [%s] %s || %s\n", r.ID, r.Min, cfgs, r.Title, r.Covers)
 			}
 		}
 		return
